@@ -266,6 +266,98 @@ func runC20(c *Ctx) {
 		}
 	}
 	c.Floor(nil, "reader sites of framed records", nR, 6)
+	// R20.2 (continued): the cached last values are exactly what was stored -----------------------------
+	c.Rule("R20.2", "Equivalence")
+	if fn := c.Need("isaac/database.(*basePermanent).updateLast"); fn != nil {
+		if cl := c.ClosureWithCall(fn, "db.lenc.SetValue(*)"); cl != nil {
+			// the proof slot gets (proof, its header, its body); the block-map slot (map, its header, its body)
+			for _, t := range []struct {
+				what string
+				val  ssa.Value
+				want [3]string
+			}{
+				{"suffrage proof slot", CallArg(firstOr(c.CallsD(cl, "db.proof.SetValue(*)")), 0), [3]string{"proof", "proofmeta", "proofbody"}},
+				{"block map slot", retVal0(cl, "var:complit", c), [3]string{"mp", "mpmeta", "mpbody"}},
+			} {
+				got, ok := tripleOf(c, cl, t.val)
+				for k := 0; k < 3; k++ {
+					c.Report(cl, fmt.Sprintf("%s component %d is %s", t.what, k, t.want[k]), cl.Pos(), ok && got[k] == t.want[k], fmt.Sprintf("stored %q", got[k]))
+				}
+			}
+		}
+	}
+	for _, k := range []string{"isaac/database.(*LeveldbPermanent).mergeTempDatabaseFromLeveldb", "isaac/database.(*RedisPermanent).mergeTempDatabaseFromLeveldb"} {
+		if fn := c.Need(k); fn != nil {
+			calls := c.CallsD(fn, "db.updateLast(*)")
+			for i, want := range []string{"temp.enc.Hint().String()", "temp.mp", "temp.mpmeta", "temp.mpbody", "temp.proof", "temp.proofmeta", "temp.proofbody", "temp.policy"} {
+				c.ArgIs(fn, fmt.Sprintf("last values cached from the merged temp: argument %d", i), calls, 1, i, want)
+			}
+		}
+	}
+	// every record of the merged temp database is copied: the copy callback continues only after the
+	// record was put into the current batch, and a full batch is handed to a writer before it is replaced
+	if parent := c.Need("isaac/database.(*LeveldbPermanent).mergeTempDatabaseFromLeveldb"); parent != nil {
+		c.ArgIs(parent, "the whole temp database is iterated", c.CallsD(parent, "temp.st()#0.Iter(*)"), 1, 0, "nil")
+		if cl := c.ClosureWithCall(parent, "var:batch.Put(k, v)"); cl != nil {
+			c.MP(cl, "copy continues only after the record was put into the batch", c.ReturnsD(cl, 0, "true"), 1, GCalled("var:batch.Put(k, v)"))
+			c.MP(cl, "a full batch is replaced only after it was handed to a writer", c.StoresD(cl, "&var:batch"), 1, GOk("*.NewJob(*)"))
+		} else {
+			c.Unresolved(parent, "copy callback", "closure putting (k, v) into the batch not found")
+		}
+		c.MP(parent, "success only after the last partial batch was handed to a writer", c.SuccessReturns(parent), 1,
+			GOk("*.NewJob(func:isaac/database.(*LeveldbPermanent).mergeTempDatabaseFromLeveldb$2)"), GCmp("var:batch.Len()", "<=", "0"))
+	}
+	// R20.4 loader gate (shared with C21): what a reopen loads is what was committed
+	loaderGateRules(c, "R20.4")
+}
+
+func firstOr(ins []ssa.Instruction) ssa.Instruction {
+	if len(ins) == 0 {
+		return nil
+	}
+	return ins[0]
+}
+
+// retVal0: the first result of the return whose first result renders as pat.
+func retVal0(fn *ssa.Function, pat string, c *Ctx) ssa.Value {
+	for _, r := range Returns(fn) {
+		if len(r.Results) > 0 && c.D(RetVal(r, 0)) == pat {
+			return RetVal(r, 0)
+		}
+	}
+	return nil
+}
+
+// tripleOf: v is (a load of) a local [3]T array; returns the descriptors stored into its elements.
+func tripleOf(c *Ctx, fn *ssa.Function, v ssa.Value) (out [3]string, ok bool) {
+	if v == nil {
+		return out, false
+	}
+	if u, isU := v.(*ssa.UnOp); isU {
+		v = u.X
+	}
+	al, isAl := v.(*ssa.Alloc)
+	if !isAl {
+		return out, false
+	}
+	n := 0
+	for _, in := range allInstrs(fn) {
+		st, isSt := in.(*ssa.Store)
+		if !isSt {
+			continue
+		}
+		ia, isIA := st.Addr.(*ssa.IndexAddr)
+		if !isIA || ia.X != ssa.Value(al) {
+			continue
+		}
+		k, isK := constInt(ia.Index)
+		if !isK || k < 0 || k > 2 {
+			return out, false
+		}
+		out[k] = c.D(st.Val)
+		n++
+	}
+	return out, n == 3
 }
 
 func checkTriple(c *Ctx, fn *ssa.Function, at ssa.Instruction, slot string, ts map[int]ssa.Value) {
